@@ -209,7 +209,7 @@ class Path:
 
 class Interp:
     def __init__(s, mod, intercept=None, limits=None, merge_pure=True):
-        s.mod = mod; s.intercept = dict(intercept or {}); s.lim = limits or Limits(); s.steps = 0; s.ended = []; s.merge_pure = merge_pure
+        s.mod = mod; s.intercept = dict(DEFAULT_INTERCEPTS); s.intercept.update(intercept or {}); s.lim = limits or Limits(); s.steps = 0; s.ended = []; s.merge_pure = merge_pure
         s.gaddr = {}; s.called = {}; s.npaths = 0
     # ------------------------------------------------------------ set-up
     def new_state(s):
@@ -804,13 +804,77 @@ class Interp:
         if nm == 'ldexp':
             if isinstance(args[0], float) and not is_sym(args[1]): return [(st, math.ldexp(args[0], sgn(args[1], 32)))]
             raise Unsupported('symbolic ldexp')
+        r = s.libstdcxx(nm, args, st)
+        if r is not None: return r
         st.events.append(('unmodelled', nm))
         raise PathEnd('unmodelled', nm)
+    # ---- the few libstdc++ out-of-line members that -O1 code of libphysica calls (std::string with the SSO layout {ptr,len,{buf[16]|cap}})
+    def _str(s, st, p):
+        d = st.load(p, 8); n = st.load(p + 8, 8); return d, n
+    def _str_bytes(s, st, p):
+        d, n = s._str(st, p); return bytes(st.load(d + i, 1) for i in range(n))
+    def _cstr(s, st, p):
+        out = bytearray()
+        while True:
+            b = st.load(p + len(out), 1)
+            if b == 0: return bytes(out)
+            out.append(b)
+    def _str_set(s, st, p, data):
+        d, n = s._str(st, p); local = p + 16
+        cap = 15 if d == local else st.load(p + 16, 8)
+        if len(data) > cap:
+            nd = st.alloc(len(data) + 1)
+            if d != local: st.free(d)
+            d = nd; st.store(p, 8, d); st.store(p + 16, 8, len(data))
+        for i, b in enumerate(data): st.store(d + i, 1, b)
+        st.store(d + len(data), 1, 0); st.store(p + 8, 8, len(data))
+    def libstdcxx(s, nm, args, st):
+        S = '_ZNSt7__cxx1112basic_stringIcSt11char_traitsIcESaIcEE'; SK = '_ZNKSt7__cxx1112basic_stringIcSt11char_traitsIcESaIcEE'
+        if nm == S + '9_M_createERmm':
+            cap = st.load(args[1], 8); return [(st, st.alloc(cap + 1))]
+        if nm == S + '10_M_disposeEv':
+            d, n = s._str(st, args[0])
+            if d != args[0] + 16: st.free(d)
+            return [(st, None)]
+        if nm in (S + '9_M_appendEPKcm', S + '6appendEPKcm'):
+            add = bytes(st.load(args[1] + i, 1) for i in range(args[2])); s._str_set(st, args[0], s._str_bytes(st, args[0]) + add); return [(st, args[0])]
+        if nm == S + '6appendEPKc':
+            s._str_set(st, args[0], s._str_bytes(st, args[0]) + s._cstr(st, args[1])); return [(st, args[0])]
+        if nm in (S + '9_M_assignERKS4_', S + '6assignERKS4_'):
+            s._str_set(st, args[0], s._str_bytes(st, args[1])); return [(st, args[0])]
+        if nm == S + '10_M_replaceEmmPKcm':
+            cur = s._str_bytes(st, args[0]); new = bytes(st.load(args[3] + i, 1) for i in range(args[4]))
+            s._str_set(st, args[0], cur[:args[1]] + new + cur[args[1] + args[2]:]); return [(st, args[0])]
+        if nm == S + '14_M_replace_auxEmmmc':
+            cur = s._str_bytes(st, args[0]); s._str_set(st, args[0], cur[:args[1]] + bytes([args[4] & 255]) * args[3] + cur[args[1] + args[2]:]); return [(st, args[0])]
+        if nm == SK + '7compareEPKc':
+            a = s._str_bytes(st, args[0]); b = s._cstr(st, args[1]); return [(st, ((a > b) - (a < b)) & 0xffffffff)]
+        if nm == SK + '7compareERKS4_':
+            a = s._str_bytes(st, args[0]); b = s._str_bytes(st, args[1]); return [(st, ((a > b) - (a < b)) & 0xffffffff)]
+        if nm in (S + 'C2EPKcRKS3_', S + 'C1EPKcRKS3_'):
+            st.store(args[0], 8, args[0] + 16); st.store(args[0] + 8, 8, 0); st.store(args[0] + 16, 1, 0)
+            s._str_set(st, args[0], s._cstr(st, args[1])); return [(st, None)]
+        if nm in (S + 'C2ERKS4_', S + 'C1ERKS4_'):
+            st.store(args[0], 8, args[0] + 16); st.store(args[0] + 8, 8, 0); st.store(args[0] + 16, 1, 0)
+            s._str_set(st, args[0], s._str_bytes(st, args[1])); return [(st, None)]
+        if nm in (S + 'D2Ev', S + 'D1Ev'):
+            d, n = s._str(st, args[0])
+            if d != args[0] + 16: st.free(d)
+            return [(st, None)]
+        if nm in (S + '7reserveEm', S + '13shrink_to_fitEv', S + '7reserveEv'): return [(st, None)]
+        return None
     @staticmethod
     def is_ostream_op(nm):
         return nm.startswith(('_ZNSo', '_ZStlsISt11char_traitsIcEERSt13basic_ostream', '_ZSt16__ostream_insert', '_ZSt4endlIcSt11char_traits', '_ZSt5flushIcSt11char_traits',
                               '_ZStlsIcSt11char_traitsIcESaIcEERSt13basic_ostream', '_ZStlsIcSt11char_traitsIcEERSt13basic_ostream', '_ZNSt9basic_iosIcSt11char_traitsIcEE5clear', '_ZNKSt5ctypeIcE13_M_widen_initEv',
                               '_ZStlsIdcSt11char_traitsIcEERSt13basic_ostream', '_ZStlsIcSt11char_traitsIcEERSt13basic_ostreamIT_T0_ES6_St5_Setw', '_ZStlsIcSt11char_traitsIcEERSt13basic_ostreamIT_T0_ES6_St13_Setprecision'))
+
+def _formatted_string(it, args, st, depth):
+    # libphysica::Formatted_String(result, str, color, bold, underlined, background): formatting is not the subject of any check -> returns str unchanged
+    st.store(args[0], 8, args[0] + 16); st.store(args[0] + 8, 8, 0); st.store(args[0] + 16, 1, 0)
+    it._str_set(st, args[0], it._str_bytes(st, args[1])); st.events.append(('diag', 'Formatted_String'))
+    return [(st, None)]
+DEFAULT_INTERCEPTS = {'@_ZN10libphysica16Formatted_StringENSt7__cxx1112basic_stringIcSt11char_traitsIcESaIcEEES5_bbS5_': _formatted_string}
 
 class _SymIndex(Exception):
     def __init__(s, term): s.term = term
